@@ -710,6 +710,19 @@ func (w *world) agreedLeader() int {
 	return ref
 }
 
+// modelPeersBefore: the certain members as they were before a removal of slot
+// was applied to the model (the removal sets it to no before this is asked).
+func (w *world) modelPeersBefore(slot int, was tri) []int {
+	var out []int
+	for i := 0; i < w.slots; i++ {
+		if w.member[i] == yes || (i == slot && was == yes) {
+			out = append(out, i)
+		}
+	}
+	sort.Ints(out)
+	return out
+}
+
 // modelPeers is the list of certain members.
 func (w *world) modelPeers() []int {
 	var out []int
@@ -1294,7 +1307,11 @@ func (w *world) removeOp(s Step) {
 		// needs one throughout (for the seconds after a partition a cut-off peer has
 		// none: the leader backs off before it reaches it again, F15/F16); failures of
 		// it are logged and the removal goes on, by design
-		checkRehoming = repin && quietBefore && was == yes && leaderBefore >= 0 && w.agreedLeader() >= 0
+		// ... and allocates among the members and metrics as the asked peer sees them:
+		// a peer that is still catching up (it reported another peerset than the
+		// model's before the call) finds too few candidates
+		upToDate := fmt.Sprint(beforePeers) == fmt.Sprint(w.modelPeersBefore(s.Slot, was))
+		checkRehoming = repin && quietBefore && was == yes && leaderBefore >= 0 && w.agreedLeader() >= 0 && upToDate
 		if repin && quietBefore && was == yes && !checkRehoming {
 			run.Probe("rehoming_not_judged_no_stable_leader")
 		}
@@ -1467,6 +1484,18 @@ func (w *world) stopOp(s Step) {
 	leave := s.Leave && members > 1 && n.readySeen
 	n.cfg.LeaveOnShutdown = leave
 	w.run.Ev(n.who, "stop", "leave=%v", leave)
+	// who else was running when the peer was told to stop (a peer that gives up
+	// or is removed meanwhile must not be mistaken for one that was down all along)
+	othersBefore, runningBefore := 0, 0
+	for i := 0; i < w.slots; i++ {
+		if i == s.Slot || w.member[i] == no {
+			continue
+		}
+		othersBefore++
+		if w.up(i) != nil {
+			runningBefore++
+		}
+	}
 	// does the peer's own (latest, possibly uncommitted) configuration still list it?
 	ownViewHasIt := true
 	if leave {
@@ -1553,17 +1582,7 @@ func (w *world) stopOp(s Step) {
 			}
 			// nobody else is running at all: a removal needs a majority of those who
 			// stay, so it cannot have been committed
-			others, running := 0, 0
-			for i := 0; i < w.slots; i++ {
-				if i == s.Slot || w.member[i] == no {
-					continue
-				}
-				others++
-				if m := w.cur[i]; m != nil && m.alive {
-					running++
-				}
-			}
-			if others > 0 && running == 0 {
+			if othersBefore > 0 && runningBefore == 0 {
 				listed, known = true, true
 				w.run.Probe("left_with_nobody_else_running")
 			}
@@ -1595,8 +1614,9 @@ func (w *world) stopOp(s Step) {
 			}
 			w.run.Violate("C17/member_wiped_its_data", sig, "%s was shut down with leave_on_shutdown, could not leave (%s) and discarded its Raft data all the same", n.who, map[bool]string{true: "the leader still lists it", false: "there is no leader, and every other member that is running - if any - still lists it"}[w.leader() != nil])
 		case known && listed:
+			// (the removal entry may still sit in the log uncommitted and take effect
+			// later: membership stays uncertain, the members' reports decide)
 			w.run.Probe("leave_failed_data_kept")
-			w.member[s.Slot] = yes
 		default:
 			if wiped {
 				w.run.Probe("left_peer_data_cleaned")
